@@ -5,7 +5,7 @@
 //! ordinary failures with replayable cases.
 
 use crate::core::*;
-use crate::engine::{bin_for, verif_root};
+use crate::engine::{bin_for, out_root, verif_root};
 use serde::{Deserialize, Serialize};
 use serde_json::{json, Value};
 use std::process::{Command, Stdio};
@@ -85,7 +85,9 @@ enum MiriOutcome {
 }
 
 fn run_miri(scenario_seed: u64, seeds: &str, rate: &str) -> MiriOutcome {
-    let dir = verif_root().join("sim/miri");
+    let dir = std::env::var("VERIF_MIRI_DIR")
+        .map(std::path::PathBuf::from)
+        .unwrap_or_else(|_| verif_root().join("sim/miri"));
     if !dir.exists() {
         return MiriOutcome::Unavailable("sim/miri missing".into());
     }
@@ -130,7 +132,7 @@ pub fn run_side_crates(tier: Tier, seed: u64, obs: &mut Obs) -> Vec<(Value, Fail
     if bin.exists() {
         let (batches, iters): (u64, u64) = tier.pick((32, 60), (640, 160));
         let procs = 16u64;
-        let persist = verif_root().join("replays/shuttle");
+        let persist = out_root().join("replays/shuttle");
         let _ = std::fs::create_dir_all(&persist);
         let mut children = Vec::new();
         for p in 0..procs {
